@@ -1266,3 +1266,120 @@ class NamedLocals(dict):
             out = [val] if multi else val
         self.values[nm] = val
         return out
+
+
+# ------------------------------------------------------------------------------------------------ O7e: deflation stage on the pivot-tie families
+class StageCase:
+    """like jxh.Case (same attributes used by prove_coi), but the symbolic evaluation runs with NamedLocals cuts and a Pruner"""
+
+    def __init__(self, h, fn, fn_real_src, npar, sampler, label, hyps, cut, sqrt_hints=()):
+        self.h, self.fn, self.label = h, fn, label
+        ex = onp.asarray(sampler(onp.random.default_rng(1))[0], dtype=float)
+        self.cj = jax.make_jaxpr(fn)(jnp.asarray(ex))
+        worst = jx.validate(fn, [ex], n=3, seed=h.seed, sampler=lambda rng: [onp.asarray(v, dtype=float) for v in sampler(rng)], cj=self.cj)
+        h.fact('translator_validation[%s]' % label, True, 'max rel err %.2e on 3 ground runs of the symbolic path (no cut)' % worst, nontrivial=False)
+        p = sym.sym_array('p', (npar,))
+        self.inp = {'p': p}
+        self.ctx = jx.Ctx()
+        self.ctx.hyps = [sym.tob(x) for x in hyps(list(p))]
+        self.ctx.decide = Pruner(self.ctx, self.ctx.hyps)
+        self.ctx.sqrt_hints = list(sqrt_hints)
+        self.locals = NamedLocals(self.cj, fn_real_src, cut={k: (lambda out, f=f: f(list(p))) for k, f in cut.items()})
+        self.ctx.hooks = self.locals
+        self.out = tuple(jx.eval_jaxpr(self.ctx, self.cj.jaxpr, self.cj.consts, p))
+        self._jit = jax.jit(fn)
+        self.shape = ex.shape
+
+    def conc_inputs(self, vals):
+        return {'p': onp.asarray(vals['p'], dtype=float).reshape(self.shape)}
+
+    def real(self, vals):
+        return tuple(onp.asarray(x) for x in self._jit(jnp.asarray(onp.asarray(vals['p'], dtype=float).reshape(self.shape))))
+
+
+PLANE_IDX = {'xy': (0, 1, 2), 'yz': (1, 2, 0), 'xz': (0, 2, 1)}     # (i, j, k): equal diagonal entries i, j; shear (i,j); free entry k
+TIE_OF_PLANE = {'xy': 'k0 == k1', 'yz': 'k1 == k2', 'xz': 'k0 == k2'}
+
+
+def _tie_family(plane):
+    i, j, k = PLANE_IDX[plane]
+
+    def fam(p):
+        A = jnp.zeros((3, 3))
+        return A.at[i, i].set(p[0]).at[j, j].set(p[0]).at[k, k].set(p[2]).at[i, j].set(p[1]).at[j, i].set(p[1])
+    return fam
+
+
+def _tie_cases():
+    """hypothesis cases on (a, g, c): d = (a - c)/3; deviatoric eigenvalues d + g, d - g (in-plane) and -2 d (out of plane).
+    Cases: the in-plane eigenvalue d + g is the strictly extreme one, positive (P) or negative (N); the third pivot candidate is
+    not larger than the tied pair (1: the tie decides the pivot) or larger (2)."""
+    out = {}
+    for nm, sgn in (('P', 1.0), ('N', -1.0)):
+        for sub in (1, 2):
+            def hyps(p, sgn=sgn, sub=sub):
+                a, g, c = p
+                d = v_mul(1.0 / 3.0, v_sub(a, c))
+                c1 = v_mul(1.0 / 3.0, v_add(v_mul(2.0, a), c))
+                e = v_mul(sgn, v_add(d, g))
+                o1, o2 = v_sub(d, g), v_mul(-2.0, d)
+                k2le = v_le(v_sq(v_sub(v_sub(c, a), g)), v_mul(2.0, v_sq(g)))
+                return [v_lt(v_mul(1e-30, v_sq(c1)), v_add(v_mul(3.0, v_sq(d)), v_sq(g))), v_lt(0.0, e),
+                        v_lt(o1, e), v_lt(v_mul(-1.0, o1), e), v_lt(o2, e), v_lt(v_mul(-1.0, o2), e), k2le if sub == 1 else v_not(k2le)]
+            out['%s%d' % (nm, sub)] = hyps
+    return out
+
+
+def _o7_tie(h, plane, cases):
+    T = TM()
+    fam = _tie_family(plane)
+    fn = lambda p: T.eigen_sym33_non_unit(fam(p)) + (fam(p),)
+    allc = _tie_cases()
+
+    def smp_for(cname):
+        def smp(rng):
+            for _ in range(10000):
+                p = rng.uniform(-2, 2, size=3)
+                if all(bool(x) for x in allc[cname]([float(v) for v in p])):
+                    return [p]
+            raise RuntimeError('no sample for case %s' % cname)
+        return smp
+    for cname in cases:
+        hyps = allc[cname]
+        estar = lambda p: v_add(v_mul(1.0 / 3.0, v_sub(p[0], p[2])), p[1])
+        name = 'tie_%s[%s]' % (plane, cname)
+        c = StageCase(h, fn, T.eigen_sym33_non_unit, 3, smp_for(cname), name, hyps, cut={'eval2': estar})
+
+        def spec(i, o, hyps=hyps):
+            lam, V, A = list(o[0]), M(o[1]), M(o[2])
+            sc = _inf_norm(A)
+            AV, VL, G = mm(A, V), mm(V, mdiag(lam)), mm(mT(V), V)
+            nrm = [G[0][0], G[1][1], G[2][2]]
+            return hyps(list(i['p'])), [
+                Eq(fl(AV), fl(VL), name='eigen_equation_A_V_is_V_lam', scale=sc),
+                Eq([G[0][1], G[0][2], G[1][2]], 0.0, name='eigenvectors_orthogonal', scale=1.0),
+                Lt(0.0, nrm, name='eigenvectors_nonzero', scale=0.0),
+                Holds(v_and(v_le(lam[0], lam[1]), v_le(lam[1], lam[2])), name='ascending')]
+        prove_coi(c, name, spec, cap=60)
+
+
+@obligation(P, 'O7.eigen_sym33_deflation_on_pivot_ties', cap=300)
+def o7e(h):
+    """the deflation stage of the REAL eigen_sym33_non_unit (column-pivoted QR, Wilkinson shift, eigenvector assembly, sorting) on the
+    three-parameter families with EQUAL in-plane diagonal [[a,g,0],[g,a,0],[0,0,c]] and its two coordinate permutations, on which two
+    rows of (C - eval2 I) have exactly equal norm whatever eval2 is (pivot ties k0 == k1, k1 == k2, k0 == k2): the returned pairs
+    satisfy A v_i = lam_i v_i exactly, v_i non-zero and mutually orthogonal, lam ascending"""
+    _o7_meta(h)
+    h.encoded('named local eval2 of eigen_sym33_non_unit is cut (see assumptions)')
+    h.bounds('a, g, c: all reals with the in-plane deviatoric eigenvalue d + g (d = (a-c)/3) strictly extreme in magnitude (positive: P, negative: N), not '
+             'nearly isotropic (3 d^2 + g^2 > 1e-30 c1^2, the code\'s own fallback threshold); sub-case 1: (c-a-g)^2 <= 2 g^2, i.e. the third pivot '
+             'candidate is not larger than the tied pair, so the TIE decides the pivot; sub-case 2: it is larger',
+             'quick: plane xy (tie k0 == k1), cases P1 N1 P2 N2; thorough: also yz (k1 == k2) and xz (k0 == k2)')
+    h.outside('members whose out-of-plane eigenvalue -2d is the extreme one (cases C: unknown @60 s, see DESIGNED_NOT_REGISTERED)',
+              'the accuracy of eval2 itself (Pade + trigonometric formula): cut')
+    h.assume_note('cut with an ASSUMED lemma: the named local eval2 (largest-magnitude deviatoric eigenvalue from the Pade/trigonometric formula) is '
+                  'replaced by the exact eigenvalue d + g of the family; the real value differs from it by ~1e-15 relative (O3 bounds the Pade residual), '
+                  'which is outside this obligation. Replays run the unmodified eigen_sym33_non_unit.',
+                  'branch conditions implied by the case hypotheses are folded during interpretation (Pruner); sqrt definitions filtered by cone of influence')
+    for plane in (('xy', 'yz', 'xz') if h.thorough() else ('xy',)):
+        _o7_tie(h, plane, ('P1', 'N1', 'P2', 'N2'))
